@@ -84,6 +84,40 @@ def cancel_items(rng, quick):
     return items
 
 
+def loop_running_items(rng, quick):
+    """the run ends by itself while a loop step is still inside its sub-workflows: (a) the output does not need the
+    loop, (b) another step fails and makes the only output impossible, (c) the caller cancels. Everything the loop
+    started (item goroutines, sub-runs, their deployments) must be gone when Execute returns."""
+    import check_c13
+    items = []
+    for kind in ['output-without-loop', 'other-step-fails', 'cancelled']:
+        for n, par in ([(2, 2)] if quick else [(1, 1), (2, 2), (4, 2)]):
+            it = check_c13.loop_item(rng, n, par, ['success'] * n, delays=[30] * n)
+            it['script']['w']['deploy'] = {'delay_ms': 300}      # the sub-workflow's step is still deploying when the parent ends
+            wf = it['wf']
+            wf['steps']['quick'] = {'kind': 'plugin', 'pstep': 'work', 'src': 'quick', 'fields': {'input': tmap({'id': lit('quick')})}}
+            it['oc']['quick'] = okoc()
+            if kind == 'output-without-loop':
+                it['script']['quick'] = {'exec': {'out': 'success', 'delay_ms': 40}}
+                wf['outputs'] = {'success': tmap({'q': ref('steps.quick.outputs.success.tok')})}
+                it['want'] = ['success']
+            elif kind == 'other-step-fails':
+                it['script']['quick'] = {'exec': {'out': 'error', 'delay_ms': 40}}
+                wf['outputs'] = {'success': tmap({'q': ref('steps.quick.outputs.success.tok'), 'd': ref('steps.loop.outputs.success.data')})}
+                it['want'] = ['error']
+            else:
+                it['script']['quick'] = {'exec': {'hang': True}}
+                wf['outputs'] = {'success': tmap({'q': ref('steps.quick.outputs.success.tok'), 'd': ref('steps.loop.outputs.success.data')})}
+                it['cancel'] = True
+                it['extra'] = {'timeout_ms': 30000, 'runs': [{'input': it['input'], 'cancel_after_ms': 100}]}
+            it.pop('expect_items', None)
+            it['nomeaning'] = True
+            it['schedule'] = None
+            it['at'] = 'loop-running/%s n=%d par=%d' % (kind, n, par)
+            items.append(it)
+    return items
+
+
 def run(ctx):
     import engine_model
     engine_model.model_part(ctx, 'C05')
@@ -94,5 +128,6 @@ def run(ctx):
         it = cancel_items(rng, ctx.quick)
         it.append(fanin(rng, 6, 'error', 'hang'))
         it.append(fanin(rng, 6, 'crash', 'slow', handler=False))
+        it += loop_running_items(rng, ctx.quick)
         return it
     family.run_family_check(ctx, 'C05', n_quick=20, n_thorough=250, profile=prof, extra_items=extra)
